@@ -53,7 +53,7 @@ def gen_text(rng, cls):
     t = float(t0)
     for i in range(nb):
         bl = rng.choice([500.0, 333.3333333333333, 400.0, 344.82758620689657, 250.0, 1000.0, rng.uniform(100, 2000)])
-        tps.append(f"{fnum(t)},{repr(bl)},{rng.choice([4, 4, 3, 7, 1])},{rng.randrange(4)},{rng.choice([0, 1, 2, 2, 256, 1000])},{rng.choice([5, 50, 100])},1,{rng.choice([0, 1])}")
+        tps.append(f"{fnum(t)},{repr(bl)},{rng.choice([4, 4, 3, 7, 1])},{rng.randrange(4)},{rng.choice([0, 1, 2, 2, 256, 1000])},{rng.choice([5, 50, 100])},1,{rng.choice([0, 1, 0, 1, 8, 9])}")
         t += rng.choice([span / 4, 1234.5, 4000.0, rng.uniform(1, span / 2)])
     nsv = rng.choice([0, 0, 2, 5]) if cls != "many_sv" else 25
     for i in range(nsv):
@@ -61,7 +61,7 @@ def gen_text(rng, cls):
         if rng.random() < 0.1:
             ts = float(t0) - rng.choice([0.5, 250.0, 3000.0])  # an SV ahead of the first timing point is an SV all the same
         code = rng.choice([-100.0, -50.0, -200.0, -133.33333333333334, -10.0, -1000.0, -rng.uniform(10, 1000)])
-        tps.append(f"{fnum(ts)},{repr(code)},4,{rng.randrange(4)},{rng.choice([0, 1, 2, 2, 256, 1000])},{rng.choice([5, 50, 100])},0,{rng.choice([0, 1])}")
+        tps.append(f"{fnum(ts)},{repr(code)},4,{rng.randrange(4)},{rng.choice([0, 1, 2, 2, 256, 1000])},{rng.choice([5, 50, 100])},0,{rng.choice([0, 1, 0, 1, 8, 9])}")
     if rng.random() < 0.5:
         rng.shuffle(tps)
     L += tps
